@@ -293,7 +293,7 @@ with companions of newer modules.
 """
 MAKES = ["optional", "optional_empty", "sequence", "opt_seq", "opt_get", "seq_at", "seq_empty", "arg_optional",
          "arg_sequence"]
-ROUTES = ["output", "two_outputs", "intros", "if_result", "loop_state", "func_arg", "inline_arg", "inline_passthrough"]
+ROUTES = ["output", "two_outputs", "tensor_then_output", "intros", "if_result", "loop_state", "func_arg", "inline_arg", "inline_passthrough"]
 
 
 def _optseq_value(make, op, args):
@@ -360,10 +360,18 @@ def realise_optseq(case):
     elif route == "two_outputs":
         outs["r"] = v
         outs["r2"] = v
+    elif route == "tensor_then_output":
+        # (one internal operator forwards all requested outputs: the optional one is not the first)
+        t0 = argument(Tensor(np.float32, (2,)))
+        args["t_in"] = t0
+        outs["t0"] = op.abs(t0)
+        outs["r"] = v
     elif route == "intros":
         from spox._internal_op import intros
 
-        (outs["r"],) = intros(v)
+        t0 = argument(Tensor(np.float32, (2,)))
+        args["t_in"] = t0
+        _t, outs["r"] = intros(t0, v)
     elif route == "if_result":
         c = argument(Tensor(np.bool_, ()))
         args["c"] = c
